@@ -136,7 +136,21 @@ def run_tlc(module, cfg, env, wd, workers=8, timeout=1500, heap="4g", simulate=N
     if p.returncode == 124:
         raise ToolError("TLC timeout (%ss) on %s" % (timeout, module))
     res = {"out": out, "viol": [], "known": [], "tally": {}, "states": 0, "distinct": 0, "wall": time.time() - t0}
+    # TLC's pretty printer breaks a tuple that does not fit in 80 columns over several lines ("<< "VIOL",\n   "C09", ... >>"):
+    # such tuples are joined back into one line first, or a long clause name would make a violation invisible
+    joined, buf = [], None
     for line in out.splitlines():
+        if buf is not None:
+            buf += " " + line.strip()
+            if line.rstrip().endswith(">>"):
+                joined.append(re.sub(r"^<<\s+", "<<", re.sub(r"\s+>>$", ">>", buf))); buf = None
+            continue
+        if re.match(r'^<< "(VIOL|KNOWN|DRIFT)",\s*$', line):
+            buf = line.strip()
+            continue
+        joined.append(line)
+    res["lines"] = joined
+    for line in joined:
         m = VIOL_RE.match(line)
         if m:
             res["viol"].append(_parse_tuple(m.group(1)))
@@ -150,6 +164,8 @@ def run_tlc(module, cfg, env, wd, workers=8, timeout=1500, heap="4g", simulate=N
         m = re.match(r"^(\d+) states generated, (\d+) distinct states found", line)
         if m:
             res["states"], res["distinct"] = int(m.group(1)), int(m.group(2))
+    if res["tally"].get("viol", 0) > 0 and not res["viol"] and not res["known"]:
+        raise ToolError("%s: the specification counted %d violating states but no VIOL line could be read from TLC's output" % (module, res["tally"]["viol"]))
     ok = ("Model checking completed. No error has been found." in out) or (simulate and p.returncode == 0 and "Error:" not in out)
     if not ok:
         ls = [l for l in out.splitlines() if not l.startswith("<<") and not l.startswith("Loading ")]
@@ -658,7 +674,7 @@ def conf_job(run, name, scope, profile="dev", workers=5, timeout=1500):
     json.dump(scope, open(sp, "w"))
     harness("table", sp, tb, profile)
     res = run_tlc("ProdM", "MC.cfg", {"SCOPE": sp, "TABLE": tb}, wd, workers=workers, timeout=timeout)
-    drift = [json.loads("[" + m.group(1) + "]") for m in (DRIFT_RE.match(l) for l in res["out"].splitlines()) if m]
+    drift = [json.loads("[" + m.group(1) + "]") for m in (DRIFT_RE.match(l) for l in res["lines"]) if m]
     with run.lock:
         run.states += res["distinct"]; run.transitions += res["states"]
         kinds = sorted({kind_of(scope["cfgs"][d[0] - 1]) for d in drift})
